@@ -155,6 +155,22 @@ func init() {
 			return e.ts.Ite(a[0].(*Term), a[1].(*Term), a[2].(*Term))
 		},
 
+		zzPath + ".Param": func(e *Exec, fn *ssa.Function, a []Value) Value {
+			// a bound of the harness that a tier may raise; recorded so that the native replay uses the same value
+			name := e.concStr(a[0], "param name")
+			v := e.concInt(a[1], "param default")
+			if pv, ok := e.cfg.Params[name]; ok {
+				v = int64(pv)
+			}
+			found := false
+			for _, r := range e.nondets {
+				found = found || r.Name == "param:"+name
+			}
+			if !found {
+				e.nondets = append(e.nondets, nondetRec{Name: "param:" + name, IsCh: true, Val: uint64(v)})
+			}
+			return e.ts.Const(64, uint64(v))
+		},
 		zzPath + ".RetentionDaysRel": func(e *Exec, fn *ssa.Function, a []Value) Value { return FloatV{Opaque: true} },
 		zzPath + ".RetentionDays":    func(e *Exec, fn *ssa.Function, a []Value) Value { return FloatV{Opaque: true} },
 		"(" + repoMod + "/config.Sweeper).RetentionDuration": func(e *Exec, fn *ssa.Function, a []Value) Value {
